@@ -876,6 +876,62 @@ pub fn near_miss(rng: &mut Rng, text: &str) -> Option<String> {
 }
 
 
+/// Parentheses and negations nested 20-620 deep (20-110 when the library is built under the dev
+/// profile, whose frames are about six times larger): the parser recurses once per level, so code
+/// that guards the recursion by measuring the stack behaves differently from one depth on — and the
+/// depth of the call site, which the caller threads vary, then decides. The pinned parser overflows an
+/// 8 MiB stack somewhere above 3 000 levels; these stay far below.
+pub fn nested_expression(rng: &mut Rng) -> String {
+    let max = if cfg!(debug_assertions) { 110 } else { 620 };
+    let k = 20 + rng.usize_below(max - 20);
+    let inner = *rng.pick(&["-name x", "-name a -o -name b", "-mtime -1 -print", "-type f"]);
+    match rng.below(4) {
+        0 => format!("{}{inner}{}", "( ".repeat(k), " )".repeat(k)),
+        1 => format!("{}{inner}", "! ".repeat(k)),
+        2 => format!("{}{inner}{}", "! ( ".repeat(k / 2), " )".repeat(k / 2)),
+        _ => format!("{}{inner}{} -print", "( ".repeat(k), " )".repeat(k)),
+    }
+}
+
+/// An expression that is BIG in one dimension: 300 or 1000 distinct patterns or output files in
+/// one `-o` chain (indexes kept in 8 bits, programs of 30-240 KiB in front of the scan call, offsets
+/// kept in 16 bits; longer chains are left out because the `Debug` text of the left-deep tree, which
+/// the parse oracle compares, grows with the cube of the length), or one user string of 70 000 / 1 100 000 bytes (16- and 20-bit
+/// length fields). Parentheses are not nested: the pinned parser overflows its stack at a few
+/// thousand levels, which is not what these properties are about.
+pub fn giant_expression(rng: &mut Rng) -> String {
+    match rng.below(4) {
+        0 => {
+            let n = *rng.pick(&[300usize, 1000]);
+            let test = *rng.pick(&["-name", "-iname", "-path"]);
+            let tail = *rng.pick(&["", " -print", " -mtime -2 -print0"]);
+            format!("( {} ){tail}", (0..n).map(|i| format!("{test} p{i}.dat")).collect::<Vec<_>>().join(" -o "))
+        }
+        1 => {
+            let n = *rng.pick(&[300usize, 1000]);
+            let act = *rng.pick(&["-fprint", "-fprint0"]);
+            (0..n).map(|i| format!("-name p{i}.dat {act} out{i}.txt")).collect::<Vec<_>>().join(" -o ")
+        }
+        2 => {
+            let n = *rng.pick(&[300usize, 1000]);
+            (0..n).map(|i| format!("-uid {i} -fprintf u{}.txt '%p {i}\\n'", i % 300)).collect::<Vec<_>>().join(" -o ")
+        }
+        _ => {
+            let len = *rng.pick(&[70_000usize, 1_100_000]);
+            let mut long = String::from("q");
+            while long.len() < len {
+                long.push_str("/seg_0123456789");
+            }
+            match rng.below(4) {
+                0 => format!("-name '*.log' -o -path '{long}/*' -print"),
+                1 => format!("-name '*.log' -fprint {long}.txt"),
+                2 => format!("-name '*.log' -printf '{long} %p\\n'"),
+                _ => format!("-iname '{long}' -mtime -1"),
+            }
+        }
+    }
+}
+
 /// A per-user (or per-group, per-type) report: one output file per value, `n` distinct files in one
 /// expression — more than a process may be allowed to open (RLIMIT_NOFILE can be as low as a few
 /// dozen), more destinations than one hex digit of tag can number, more than a fixed pool of 64 or
